@@ -142,7 +142,7 @@ def run(repo, res, tier):
     # `the same literal expected at one point with two different descriptions` is the validation that covers the description
     # field of symbol identity: its exemptions are the enumerated ones (an extra `continue` there lets two readings through)
     n = SK.skips_rule(repo, res, tables.load("skips")["row"], only={"dfa::DFA::do_check_ambiguity_best_effort", "dfa::DFA::check_ambiguity_best_effort"})
-    res.floor("SKIPS", n, 4)
+    res.floor("SKIPS", n, 2)
     intern_dedup(repo, res)
     from . import c03, sk_bash
     # two within-word expressions with the same language and symbol order are one symbol only if what is interned is the minimised,
